@@ -84,6 +84,9 @@ func (c *tcpConsumer) Consume(p Pack) {
 		defer buffers.Put(buf)
 
 		p2.Write(buf, c.transport.Channels[:])
+		if buf.Len() == 0 { // 未订阅的通道：不能发送空的 websocket 消息
+			return
+		}
 
 		c.lockW.Lock()
 		_, err = c.wsconn.Write(buf.Bytes())
